@@ -752,7 +752,7 @@ USE_HAND = [
 
 def use_tie(ctx: vlib.Ctx):
     rng = ctx.rng
-    n = ctx.budget(250, 2500)
+    n = ctx.budget(250, 1200)
     whole = sorted(set(GENERATED))
     rng.shuffle(whole)
     cases, shown = [], []
@@ -771,7 +771,7 @@ def use_tie(ctx: vlib.Ctx):
         shown.append(t)
     ctx.coverage["use_tie_generated_texts"] = {"captured_programs": len(GENERATED), "distinct_programs": len(whole), "literal_roles_compared": nlit}
     bad, log = _bad_idx("c16_use", "PyStrLit PyLine PyUse", "", "Local Open Scope N_scope.\n", cases, "use_case_ok",
-                                "list N * option (list (use * lval))", shard=60, needs=["theories/PyUse.vo"])
+                                "list N * option (list (use * lval))", shard=40, needs=["theories/PyUse.vo"])
     name = "use-roles-model-vs-cpython-ast (generated functions)"
 
     def brief(i):
@@ -1271,7 +1271,7 @@ def install_recorder():
         m = importlib.import_module(mn)
 
         def rec(code, *a, _e=builtins.exec, **k):
-            if isinstance(code, str) and len(GENERATED) < 60000:
+            if isinstance(code, str) and len(GENERATED) < 30000:
                 GENERATED.append(code)
             return _e(code, *a, **k)
         m.exec = rec
@@ -1440,7 +1440,7 @@ def oracle(ctx: vlib.Ctx, boost: bool = False):
 # the check
 # ---------------------------------------------------------------------------
 
-THEOREMS = ["C16_literal_repr_general", "C16_literal_repr_inert", "C16_literal_repr_eval", "C16_literal_repr_refuted", "C16_use_stable", "C16_text_use", "C16_site_use", "C16_site_use_whole", "C16_key_eq_exact", "C16_float_inert", "C16_ident_sites", "C16_ident_site", "C16_line_literal", "C16_line_literal_bytes", "C16_site_line", "C16_render_eval", "C16_sites_full", "C16_site_value", "C16_default_branches_safe", "C16_default_literal_general",
+THEOREMS = ["C16_text_use_bytes", "C16_literal_repr_site", "C16_literal_repr_general", "C16_literal_repr_inert", "C16_literal_repr_eval", "C16_literal_repr_refuted", "C16_use_stable", "C16_text_use", "C16_site_use", "C16_site_use_whole", "C16_key_eq_exact", "C16_float_inert", "C16_ident_sites", "C16_ident_site", "C16_line_literal", "C16_line_literal_bytes", "C16_site_line", "C16_render_eval", "C16_sites_full", "C16_site_value", "C16_default_branches_safe", "C16_default_literal_general",
             "C16_default_literal", "C16_repr_tuple_refuted", "C16_repr_lex", "C16_ascii_lex", "C16_repr_bytes_lex", "C16_repr_clean", "C16_raw_plain_lex",
             "C16_raw_refuted", "C16_sites", "C16_site_literal", "C16_site_guarded", "C16_ident_char_inert",
             "C16_site_literal_bytes"]
